@@ -59,7 +59,7 @@ func (d *defaultReconnectPolicy) NextDelay() time.Duration {
 	exp := time.Millisecond << d.attempts
 	d.attempts++
 	delay := d.baseDelay + exp + jitter
-	if delay > d.maxDelay {
+	if delay > d.maxDelay || delay < 0 { // The exponential term can overflow for (very) large base delays
 		delay = d.maxDelay
 	}
 	return delay
